@@ -584,6 +584,81 @@ func checkInvalidRejected(p *core.Program, r *core.Report) {
 	}
 	r.Min("validated code fields", 3)
 	r.Count("validated code fields", n)
+	// the code tables agree: IsValid accepts every declared constant of its type and nothing else
+	// (the type's const block, String() and IsValid() are three tables of one enumeration; the decoder
+	// asks IsValid, the encoder writes whatever constant the session layer chose)
+	nTab := 0
+	for _, pkg := range p.SSA.AllPackages() {
+		if !strings.HasPrefix(pkg.Pkg.Path(), core.ModPath) {
+			continue
+		}
+		for _, m := range pkg.Members {
+			t, ok := m.(*ssa.Type)
+			if !ok {
+				continue
+			}
+			nt, ok := t.Type().(*types.Named)
+			if !ok {
+				continue
+			}
+			bt, ok := nt.Underlying().(*types.Basic)
+			if !ok || bt.Info()&types.IsInteger == 0 {
+				continue
+			}
+			f := p.MethodOf(nt, "IsValid")
+			if f == nil || f.Signature.Params().Len() != 0 || f.Blocks == nil {
+				continue
+			}
+			declared := map[int64]string{}
+			for _, m2 := range pkg.Members {
+				if nc, ok := m2.(*ssa.NamedConst); ok && types.Identical(nc.Type(), nt) && nc.Value.Value != nil {
+					declared[nc.Value.Int64()] = nc.Name()
+				}
+			}
+			nTab++
+			key := "code-table/" + pkg.Pkg.Name() + "." + nt.Obj().Name() + "/IsValid-accepts-exactly-the-declared"
+			rule := "IsValid(), evaluated on constants, is true for every declared constant of the type and false for every other value of its range (one byte: all 256 values): a code the node can write is a code the node can read, an unknown code is rejected"
+			lo, hi := int64(0), int64(255)
+			if bt.Kind() != types.Uint8 {
+				// wider types: the declared values and their neighbours
+				lo, hi = 0, -1
+			}
+			bad, undec := "", ""
+			test := func(v int64) {
+				res, ok := evalConcrete(f, []constant.Value{constant.MakeInt64(v)}, 0)
+				if !ok || res.Kind() != constant.Bool {
+					undec = fmt.Sprintf("IsValid(%d) could not be evaluated", v)
+					return
+				}
+				_, isDecl := declared[v]
+				if constant.BoolVal(res) != isDecl && bad == "" {
+					if isDecl {
+						bad = fmt.Sprintf("IsValid(%s = %#x) is false: the node rejects a message it can itself produce", declared[v], v)
+					} else {
+						bad = fmt.Sprintf("IsValid(%#x) is true although no constant of the type has this value", v)
+					}
+				}
+			}
+			for v := lo; v <= hi; v++ {
+				test(v)
+			}
+			if hi < lo {
+				for v := range declared {
+					test(v)
+					if _, d := declared[v+1]; !d {
+						test(v + 1)
+					}
+				}
+			}
+			if undec != "" && bad == "" {
+				r.Unknown(key, rule, p.Pos(f.Pos()), undec)
+				continue
+			}
+			r.Check(bad == "", key, rule, p.Pos(f.Pos()), "", bad)
+		}
+	}
+	r.Min("code tables with IsValid", 3)
+	r.Count("code tables with IsValid", nTab)
 	// contact header magic
 	ch := p.Func(msgsPkg, "ContactHeader", "Unmarshal")
 	okMagic := false
@@ -1036,4 +1111,138 @@ func checkEndpointDecoderValidates(p *core.Program, r *core.Report) {
 	})
 	r.Count("IsDtnNone=true stores in DtnEndpoint.UnmarshalCbor", nNone)
 	r.Min("IsDtnNone=true stores in DtnEndpoint.UnmarshalCbor", 1)
+}
+
+
+// evalConcrete runs a small, pure SSA function on constant arguments:
+// comparisons and arithmetic on constants, phis, branches, static calls of
+// further such functions, loads/stores of its own local cells. Anything else
+// makes it give up (ok=false).
+func evalConcrete(fn *ssa.Function, args []constant.Value, depth int) (constant.Value, bool) {
+	if fn == nil || fn.Blocks == nil || len(args) != len(fn.Params) || depth > 4 {
+		return nil, false
+	}
+	env := map[ssa.Value]constant.Value{}
+	cells := map[ssa.Value]constant.Value{}
+	for i, a := range args {
+		env[fn.Params[i]] = a
+	}
+	get := func(v ssa.Value) (constant.Value, bool) {
+		if k, ok := v.(*ssa.Const); ok {
+			if k.Value == nil {
+				return nil, false
+			}
+			return k.Value, true
+		}
+		c, ok := env[v]
+		return c, ok
+	}
+	b := fn.Blocks[0]
+	var prev *ssa.BasicBlock
+	for steps := 0; steps < 20000; steps++ {
+		next := (*ssa.BasicBlock)(nil)
+		for _, in := range b.Instrs {
+			switch x := in.(type) {
+			case *ssa.DebugRef:
+			case *ssa.Phi:
+				for i, pr := range b.Preds {
+					if pr == prev {
+						if c, ok := get(x.Edges[i]); ok {
+							env[x] = c
+						}
+					}
+				}
+			case *ssa.BinOp:
+				l, ok1 := get(x.X)
+				rr, ok2 := get(x.Y)
+				if !ok1 || !ok2 {
+					continue
+				}
+				switch x.Op {
+				case token.EQL, token.NEQ, token.LSS, token.LEQ, token.GTR, token.GEQ:
+					env[x] = constant.MakeBool(constant.Compare(l, x.Op, rr))
+				case token.ADD, token.SUB, token.MUL, token.AND, token.OR, token.XOR, token.AND_NOT:
+					env[x] = constant.BinaryOp(l, x.Op, rr)
+				}
+			case *ssa.UnOp:
+				if x.Op == token.NOT {
+					if c, ok := get(x.X); ok && c.Kind() == constant.Bool {
+						env[x] = constant.MakeBool(!constant.BoolVal(c))
+					}
+				} else if x.Op == token.MUL {
+					if c, ok := cells[x.X]; ok {
+						env[x] = c
+					}
+				}
+			case *ssa.Alloc:
+			case *ssa.Store:
+				if _, isAlloc := x.Addr.(*ssa.Alloc); isAlloc {
+					if c, ok := get(x.Val); ok {
+						cells[x.Addr] = c
+					} else {
+						delete(cells, x.Addr)
+					}
+				} else {
+					return nil, false
+				}
+			case *ssa.ChangeType:
+				if c, ok := get(x.X); ok {
+					env[x] = c
+				}
+			case *ssa.Convert:
+				if c, ok := get(x.X); ok {
+					if bt, isB := x.Type().Underlying().(*types.Basic); isB && bt.Info()&types.IsInteger != 0 && c.Kind() == constant.Int {
+						env[x] = c
+					}
+				}
+			case *ssa.Call:
+				callee := x.Common().StaticCallee()
+				if callee == nil || x.Common().IsInvoke() {
+					continue
+				}
+				var as []constant.Value
+				all := true
+				for _, a := range x.Common().Args {
+					c, ok := get(a)
+					if !ok {
+						all = false
+						break
+					}
+					as = append(as, c)
+				}
+				if !all {
+					continue
+				}
+				if c, ok := evalConcrete(callee, as, depth+1); ok {
+					env[x] = c
+				}
+			case *ssa.If:
+				c, ok := get(x.Cond)
+				if !ok || c.Kind() != constant.Bool {
+					return nil, false
+				}
+				if constant.BoolVal(c) {
+					next = b.Succs[0]
+				} else {
+					next = b.Succs[1]
+				}
+			case *ssa.Jump:
+				next = b.Succs[0]
+			case *ssa.Return:
+				if len(x.Results) != 1 {
+					return nil, false
+				}
+				return get(x.Results[0])
+			default:
+				if _, isVal := in.(ssa.Value); !isVal {
+					return nil, false // an effect this evaluator does not model
+				}
+			}
+		}
+		if next == nil {
+			return nil, false
+		}
+		prev, b = b, next
+	}
+	return nil, false
 }
